@@ -648,7 +648,10 @@ Expr={expr}"""
             # exacerbated by the fact that the list contains duplicates.  This is a patch until
             # we can create a better fix for Serialization.
             try:
-                values = list(set(values))
+                # dict.fromkeys keeps the order of first occurrence: the order
+                # of a set of strings depends on the interpreter's hash seed
+                # and ends up in the expression's name
+                values = list(dict.fromkeys(values))
             except TypeError:
                 pass
             if not any(is_dask_collection(v) for v in values):
